@@ -171,6 +171,17 @@ def gen_fault_config(rng, i):
   cfg = {'t': T, 'cfg': kind, 'p': tg.gen_tree_price(rng, T), 's0': gen_start(rng, T),
          'prox': pick(rng, [None, None, F(0), F(1, 2), F(2)]), 'probe': flat(tg.gen_matrix(rng, T)),
          'good': flat(tg.gen_matrix(rng, T))}
+  if kind in ('fixed', 'fixed-infeasible') and T['kind'] == 'set' and rng.random() < .5:
+    # a warm start from elsewhere (the previous window's flow): the start point is a hint, the answer is the pinned point - or the
+    # exception when the pinned point violates an aggregate bound, even if the hint itself satisfies every constraint
+    M = tg.gen_matrix(rng, T)
+    if kind == 'fixed-infeasible':
+      j = [k for k, (lo, hi) in enumerate(T['sbounds']) if hi - lo == 1][0]
+      M = [list(r) for r in M]
+      M[0][j] += F(3, 2)
+    else:
+      M = [[v + pick(rng, [F(0), F(1, 2), F(-1, 4), F(3)]) for v in r] for r in M]
+    cfg['s0'] = (pick(rng, ['flat', 'shaped']), M)
   if i % 6 == 4:
     # a caller-supplied start point OUTSIDE the bounds with a proximal weight: the proximal term is centred on the point the caller
     # gave (the start point is only a hint for the optimiser; nothing may move the centre)
@@ -529,7 +540,11 @@ def oracle_fault(c):
         bad = cc.nonlinear_residual(np.array(dev.lbounds, dtype=float), dev) > FEAS_TOL
       if bad:
         return None if out == 'opt' else 'the only flow within bounds violates a constraint and solve did not raise OptimizationException'
-      return None if isinstance(out, tuple) else 'every slot is fixed (and feasible) but solve raised'
+      if not isinstance(out, tuple):
+        return 'every slot is fixed (and feasible) but solve raised'
+      pinned = [float(lo) for _, L in tg.leaf_list(c['t']) for lo, _ in L['bounds']]
+      got = [float(v) for r in out[1] for v in r]
+      return None if got == pinned else 'every slot is fixed: the only flow within bounds is %s, solve returned %s' % (pinned, got)
     return None if out == 'opt' else 'the optimiser was not consulted and solve did not raise OptimizationException'
   if not c['success']:
     return None if out == 'opt' else 'the optimiser reported failure (status %d) and solve %s' % (
